@@ -1412,6 +1412,30 @@ fn execute(cx: &mut Ctx<'_>) {
             }
         }
     }
+    // a connection that was left lingering (dropped cleanly, its accepted end still open and silent) is given
+    // up by the stack after its retransmit budget: afterwards its port can be bound again
+    if !cx.lingering.is_empty() {
+        let rounds = sc.cfg.give_up_rounds() as usize + 8;
+        for _ in 0..rounds {
+            cx.plain_round();
+        }
+        let lingering = std::mem::take(&mut cx.lingering);
+        for (h, port) in lingering {
+            for wild in ["0.0.0.0", "::"] {
+                let ip = parse_ip(wild);
+                if !cx.m.has_family(h, ip.is_ipv4()) || cx.m.port_in_use(h, Proto::Tcp, ip.is_ipv4(), port) {
+                    continue;
+                }
+                if let Some((s, _)) = cx.bind_judged("after-linger", false, h, Proto::Tcp, ip, port) {
+                    cx.d.on(h, || drop(s));
+                    cx.rep.probes.inc("port_of_a_lingering_connection_bound_again_after_the_give_up_time");
+                }
+                if cx.stopped() {
+                    return;
+                }
+            }
+        }
+    }
 }
 
 // ------------------------------------------------------------------------------------------------
